@@ -403,8 +403,12 @@ func (f c03Field) sql() string {
 		arg = name(f.input[1]) + "*" + name(f.input[2])
 	case "sub":
 		arg = name(f.input[1]) + "-" + name(f.input[2])
-	case "dbl":
+	case "dbl", "pdbl":
 		arg = name(f.input[1]) + "*2"
+	case "half":
+		arg = name(f.input[1]) + "*0.5"
+	case "sesq":
+		arg = name(f.input[1]) + "*1.5"
 	}
 	switch f.kind {
 	case "percentile":
@@ -456,6 +460,22 @@ func genSQL(rng *rand.Rand) Case {
 		fields = append(fields, f)
 		c.Stat = append(c.Stat, "sql-"+kind+"-"+f.input[0])
 	}
+	if rng.Intn(5) == 0 {
+		// two aggregates whose arguments start with the same column and differ afterwards (a decimal literal, or a nested
+		// path alone and under arithmetic): each is evaluated with its own argument text
+		numKinds := []string{"sum", "avg", "min", "max", "count"}
+		pair := [][2][]string{
+			{{"half", hx("c"), "-"}, {"sesq", hx("c"), "-"}},
+			{{"path", hx("m.y"), "-"}, {"pdbl", hx("m.y"), "-"}},
+			{{"sesq", hx("c"), "-"}, {"dbl", hx("c"), "-"}},
+		}[rng.Intn(3)]
+		for j, in := range pair {
+			f := c03Field{alias: fmt.Sprintf("p%d", j), kind: numKinds[rng.Intn(len(numKinds))], p: 0.95, nth: 1, input: in}
+			fields = append(fields, f)
+			c.Stat = append(c.Stat, "sql-"+f.kind+"-"+in[0])
+		}
+		c.Stat = append(c.Stat, "sql-shared-leading-column")
+	}
 	having := rng.Intn(3) == 0
 	if having {
 		// HAVING hm > 0 with hm = max(h), h in {0,1}: whole batches are rejected now and then, and the batch after a
@@ -501,8 +521,9 @@ func genSQL(rng *rand.Rand) Case {
 		"v":   func() string { return genInput(rng, "collect", false) },
 		"c":   arith,
 		"d":   arith,
+		"m.y": arith,
 	}
-	cols := []string{"a", "b", "n.x", "v", "c", "d"}
+	cols := []string{"a", "b", "n.x", "v", "c", "d", "m.y"}
 	if grouped {
 		cols = append([]string{"g"}, cols...)
 	}
